@@ -16,7 +16,12 @@ pub struct Case {
     pub items: Vec<u64>,
     pub pa: Presentation,
     pub pb: Presentation,
+    /// an item of the set that presentation B streams first (edge labels: hash values 0, all-ones, ... under the no-op hasher)
+    #[serde(default)]
+    pub lead: Option<u64>,
 }
+
+const EDGE_LABELS: [u64; 10] = [0, u64::MAX, 1, u64::MAX - 1, 0x0100_0000_0000_0000, 0xFEFF_FFFF_FFFF_FFFF, 2, 0x0200_0000_0000_0000, u32::MAX as u64, 1 << 63];
 
 fn strategy(max_m: usize, max_n: usize) -> impl Strategy<Value = Case> {
     (kind_strategy(), crate::gen::m_strategy(1, max_m), 0u8..10).prop_flat_map(move |(kind, m, shape)| {
@@ -29,7 +34,18 @@ fn strategy(max_m: usize, max_n: usize) -> impl Strategy<Value = Case> {
         let nmin = if shape <= 2 { 1 } else { nmax / 4 + 1 };
         (ss_params(m), item_set(nmin, nmax)).prop_flat_map(move |(ss, items)| {
             let n = items.len();
-            (presentation(n), presentation(n)).prop_map(move |(pa, pb)| Case { kind, m, ss, items: items.clone(), pa, pb })
+            (presentation(n), presentation(n), 0u8..10, 0usize..EDGE_LABELS.len()).prop_map(move |(pa, pb, lead_sel, li)| {
+                let mut items = items.clone();
+                // an edge label leads presentation B in 60 % of the no-op-hasher cases and 20 % of the others
+                let lead = if lead_sel < (if kind.is_nohash() { 6 } else { 2 }) { Some(EDGE_LABELS[li]) } else { None };
+                if let Some(l) = lead {
+                    if !items.contains(&l) {
+                        items.push(l);
+                        items.sort_unstable();
+                    }
+                }
+                Case { kind, m, ss, items, pa, pb, lead }
+            })
         })
     })
 }
@@ -37,8 +53,15 @@ fn strategy(max_m: usize, max_n: usize) -> impl Strategy<Value = Case> {
 /// feed a presentation. Densified sketchers are finished once: presentation "slice" => ONE slice call over the whole
 /// stream, otherwise item-wise calls followed by end_sketch.
 fn feed(kind: Kind, sk: &mut Box<dyn Sk>, p: &Presentation, items: &[u64]) -> Result<(), Fail> {
+    feed_with_lead(kind, sk, p, items, None)
+}
+
+fn feed_with_lead(kind: Kind, sk: &mut Box<dyn Sk>, p: &Presentation, items: &[u64], lead: Option<u64>) -> Result<(), Fail> {
     if kind.is_dens() {
-        let stream = p.stream(items);
+        let mut stream = p.stream(items);
+        if let Some(l) = lead {
+            stream.insert(0, l);
+        }
         if p.slice[0] {
             ensure!(sk.slice(&stream), "sketch_slice refused a non-empty slice");
         } else {
@@ -71,7 +94,18 @@ pub fn eval(c: &Case) -> Eval {
     let mut a = make(c.kind, c.m, &c.ss);
     let mut b = make(c.kind, c.m, &c.ss);
     feed(c.kind, &mut a, &c.pa, &c.items)?;
-    feed(c.kind, &mut b, &c.pb, &c.items)?;
+    // presentation B: the lead item (if any) is streamed first and only once, the other items follow as generated
+    let rest: Vec<u64> = match c.lead {
+        Some(l) => c.items.iter().cloned().filter(|x| *x != l).collect(),
+        None => c.items.clone(),
+    };
+    if let (Some(l), false) = (c.lead, c.kind.is_dens()) {
+        // (densified sketchers are finished once: their lead is put in front of the single stream inside feed_with_lead)
+        b.sketch(l);
+    }
+    if !rest.is_empty() || c.kind.is_dens() {
+        feed_with_lead(c.kind, &mut b, &c.pb, &rest, c.lead)?;
+    }
     let va = a.views();
     let vb = b.views();
     if let Some(d) = sketch_views(&va).first_diff(&sketch_views(&vb)) {
